@@ -144,15 +144,19 @@ Definition l1 (p q : Z * Z) : Z := (Z.abs (fst p - fst q) + Z.abs (snd p - snd q
 Definition pdist (pts : list (Z * Z)) (i j : nat) : Z :=
   l1 (nth i pts (0, 0)%Z) (nth j pts (0, 0)%Z).
 
-Fixpoint insert_by (key : nat -> Z) (x : nat) (l : list nat) : list nat :=
+(* the other samples as (distance from i, index) pairs, in index order *)
+Definition keyed (pts : list (Z * Z)) (i : nat) : list (Z * nat) :=
+  let pi := nth i pts (0, 0)%Z in
+  filter (fun p => negb (snd p =? i))
+         (map (fun jq => (l1 pi (snd jq), fst jq)) (combine (seq 0 (length pts)) pts)).
+
+(* insertion sort by distance; equal distances stay in index order *)
+Fixpoint insert_kd (x : Z * nat) (l : list (Z * nat)) : list (Z * nat) :=
   match l with
   | [] => [x]
-  | h :: t => if (key x <=? key h)%Z then x :: l else h :: insert_by key x t
+  | h :: t => if (fst x <=? fst h)%Z then x :: l else h :: insert_kd x t
   end.
-Definition sort_by (key : nat -> Z) (l : list nat) : list nat :=
-  fold_right (insert_by key) [] l.
-Definition others (N i : nat) : list nat := filter (fun j => negb (j =? i)) (seq 0 N).
 
 Definition knn_brute (pts : list (Z * Z)) (k : nat) : graph :=
-  let N := length pts in
-  map (fun i => firstn k (sort_by (pdist pts i) (others N i))) (seq 0 N).
+  map (fun i => map snd (firstn k (fold_right insert_kd [] (keyed pts i))))
+      (seq 0 (length pts)).
